@@ -475,7 +475,11 @@ verdict_t check_lsearch(const lcase_t& c, ctx_t& ctx)
         type = lsearch->type();
         origin.emplace(*function, x0);
         result             = *origin;
-        const auto [ok_, t_] = lsearch->get(*result, d, t0, nano::make_null_logger());
+        // half of the cases run a COPY of the configured object (as ml::params_t and per-thread copies do); derived from generated data, so that old replay files keep their meaning
+        const bool via_clone = (c.max_iterations % 2) == 1;
+        ctx.label_if(via_clone, "line-search-used-through-clone");
+        const auto cloned    = via_clone ? lsearch->clone() : nano::rlsearchk_t{};
+        const auto [ok_, t_] = (via_clone ? *cloned : *lsearch).get(*result, d, t0, nano::make_null_logger());
         ok                 = ok_;
         t                  = t_;
     }
